@@ -384,6 +384,18 @@ def json_copy(x):
     return json.loads(json.dumps(x))
 
 
+@gen("HeavyHitters.clear")
+def _g_hh_clear(tier, rnd):
+    for case in _g_hh(tier, rnd):
+        yield {"self": case["self"], "args": {}}
+
+
+@gen("StreamThreshold.clear")
+def _g_st_clear(tier, rnd):
+    for case in _g_st(tier, rnd):
+        yield {"self": case["self"], "args": {}}
+
+
 @gen("HeavyHitters.add_alt")
 def _g_hh(tier, rnd):
     for nh in (1, 2, 3):
@@ -506,6 +518,30 @@ def _g_ck_expand(tier, rnd):
     for rec in cuckoo_states(tier, rnd):
         for script in ([0] * 12, [rnd.randrange(4) for _ in range(12)]):
             yield {"self": rec, "args": {}, "rand": script}
+
+
+def _ck_internal_expand(argname):
+    def g(tier, rnd):
+        n = 0
+        for rec in cuckoo_states(tier, rnd):
+            n += 1
+            for extra in (None, 0, 9, 200 + n % 50):  # fingerprints outside the stored ones (1..8); 0 is a legal fingerprint
+                yield {"self": rec, "args": {argname: extra}, "rand": [rnd.randrange(4) for _ in range(12)]}
+    return g
+
+
+gen("CuckooFilter._setup_expand", "CuckooFilter._expand_logic")(_ck_internal_expand("extra_fingerprint"))
+gen("CuckooFilter._deal_with_insertion")(_ck_internal_expand("finger"))
+
+
+@gen("CuckooFilter._check_if_present", "CuckooFilter._insert_fingerprint")
+def _g_ck_internal_fp(tier, rnd):
+    for rec in cuckoo_states(tier, rnd):
+        cap = rec["args"]["capacity"]
+        for fp in (0, 1, 3, 8, 77):
+            i1, i2 = rnd.randrange(cap), rnd.randrange(cap)
+            yield {"self": rec, "args": {"fingerprint": fp, "idx_1": i1, "idx_2": i2},
+                   "rand": [rnd.randrange(4) for _ in range(12)]}
 
 
 CCK = "probables.cuckoo.countingcuckoo.CountingCuckooFilter"
